@@ -1,6 +1,7 @@
 // Live-server driver: a real Http::Endpoint on 127.0.0.1 (ephemeral port) inside this process, driven by raw
 // sockets from the driver thread.  One op per input line, one result line per op (see common.h).
 #include "common.h"
+#include "dump.h"
 #include <pistache/endpoint.h>
 #include <pistache/http.h>
 #include <pistache/http_headers.h>
@@ -186,18 +187,7 @@ public:
     }
 };
 
-std::string dumpRequest(const Http::Request& req)
-{
-    std::string s = std::string(Http::methodString(req.method())) + " " + hex(req.resource()) + " q=";
-    // query parameters in sorted order
-    std::vector<std::string> qs;
-    for (auto it = req.query().parameters_begin(); it != req.query().parameters_end(); ++it) qs.push_back(hex(it->first) + ":" + hex(it->second));
-    std::sort(qs.begin(), qs.end());
-    for (size_t i = 0; i < qs.size(); ++i) { if (i) s += ","; s += qs[i]; }
-    if (qs.empty()) s += "-";
-    s += " body=" + hex(req.body());
-    return s;
-}
+std::string dumpRequest(const Http::Request& req) { return vh::dumpReq(req); }
 
 // ---------------------------------------------------------------------------------------------------
 // endpoint management: one endpoint at a time, recreated when the configuration changes
@@ -269,6 +259,220 @@ std::string opResp(const std::vector<std::string>& w)
     return canonResponse(raw) + " send=" + sendRes + " size=" + std::to_string(size) + " herr=" + (herr.empty() ? "-" : hex(herr));
 }
 
+
+// replace ":<port>" of this run by ":65535" so that outputs do not depend on the ephemeral port
+std::string normPort(std::string s, uint16_t port)
+{
+    const std::string from = ":" + std::to_string(port), to = ":65535";
+    for (size_t pos = 0; (pos = s.find(from, pos)) != std::string::npos; pos += to.size()) s.replace(pos, from.size(), to);
+    return s;
+}
+// the same inside hex-encoded fields
+std::string normPortHex(const std::string& s, uint16_t port)
+{
+    const std::string from = toHex(":" + std::to_string(port)), to = toHex(":65535");
+    std::string o = s;
+    for (size_t pos = 0; (pos = o.find(from, pos)) != std::string::npos; pos += to.size()) o.replace(pos, from.size(), to);
+    return o;
+}
+
+// order-dependent parts of a message dump: the raw Cookie value lists an unordered jar (pairs are sorted here), and which of
+// several Set-Cookie lines is kept as the raw entry depends on the order they were emitted in (value replaced by 2a = "*")
+std::string canonDump(const std::string& d)
+{
+    size_t a = d.find(" raw="); if (a == std::string::npos) return d;
+    size_t b = d.find(' ', a + 5); if (b == std::string::npos) b = d.size();
+    std::string list = d.substr(a + 5, b - a - 5); if (list == "-") return d;
+    std::vector<std::string> items; { std::stringstream ss(list); std::string t; while (std::getline(ss, t, ',')) items.push_back(t); }
+    for (auto& it : items) {
+        size_t c = it.find(':'); if (c == std::string::npos) continue;
+        std::string name = unhex(it.substr(0, c)), val = unhex(it.substr(c + 1));
+        if (name == "cookie") {
+            std::vector<std::string> cs; size_t p0 = 0;
+            while (p0 <= val.size()) { size_t e = val.find("; ", p0); if (e == std::string::npos) { cs.push_back(val.substr(p0)); break; } cs.push_back(val.substr(p0, e - p0)); p0 = e + 2; }
+            std::sort(cs.begin(), cs.end());
+            std::string v; for (size_t k = 0; k < cs.size(); ++k) { if (k) v += "; "; v += cs[k]; }
+            it = it.substr(0, c + 1) + hex(v);
+        } else if (name == "set-cookie") it = it.substr(0, c + 1) + "2a";
+    }
+    std::sort(items.begin(), items.end());
+    std::string nl; for (size_t i = 0; i < items.size(); ++i) { if (i) nl += ","; nl += items[i]; }
+    return d.substr(0, a + 5) + nl + d.substr(b);
+}
+
+// canonical form of a raw request: method, path, sorted query pairs, sorted header lines (Cookie pairs sorted), body
+std::string canonRequest(const std::string& raw)
+{
+    size_t he = raw.find("\r\n\r\n");
+    if (he == std::string::npos) return "nohead raw=" + hex(raw);
+    std::vector<std::string> lines; size_t pos = 0;
+    while (pos < he + 2) { size_t e = raw.find("\r\n", pos); lines.push_back(raw.substr(pos, e - pos)); pos = e + 2; }
+    std::string rl = lines.empty() ? "" : lines[0];
+    // request line: METHOD SP target SP version
+    size_t s1 = rl.find(' '), s2 = rl.rfind(' ');
+    std::string method = s1 == std::string::npos ? rl : rl.substr(0, s1);
+    std::string target = (s1 == std::string::npos || s2 <= s1) ? "" : rl.substr(s1 + 1, s2 - s1 - 1);
+    std::string version = s2 == std::string::npos ? "" : rl.substr(s2 + 1);
+    std::string path = target, q;
+    size_t qm = target.find('?'); if (qm != std::string::npos) { path = target.substr(0, qm); q = target.substr(qm + 1); }
+    std::vector<std::string> qs; { std::stringstream ss(q); std::string t; while (std::getline(ss, t, '&')) qs.push_back(hex(t)); }
+    std::sort(qs.begin(), qs.end());
+    std::vector<std::string> hs;
+    for (size_t i = 1; i < lines.size(); ++i) {
+        std::string l = lines[i];
+        if (l.rfind("Cookie: ", 0) == 0) {
+            std::vector<std::string> cs; std::string v = l.substr(8); size_t p0 = 0;
+            while (p0 <= v.size()) { size_t e = v.find("; ", p0); if (e == std::string::npos) { cs.push_back(v.substr(p0)); break; } cs.push_back(v.substr(p0, e - p0)); p0 = e + 2; }
+            std::sort(cs.begin(), cs.end());
+            l = "Cookie: "; for (size_t k = 0; k < cs.size(); ++k) { if (k) l += "; "; l += cs[k]; }
+        }
+        hs.push_back(hex(l));
+    }
+    std::sort(hs.begin(), hs.end());
+    std::string out = "method=" + hex(method) + " path=" + hex(path) + " ver=" + hex(version) + " q=";
+    for (size_t i = 0; i < qs.size(); ++i) { if (i) out += ","; out += qs[i]; }
+    if (qs.empty()) out += "-";
+    out += " headers=";
+    for (size_t i = 0; i < hs.size(); ++i) { if (i) out += ","; out += hs[i]; }
+    if (hs.empty()) out += "-";
+    out += " body=" + hex(raw.substr(he + 4));
+    return out;
+}
+
+bool requestComplete(const std::string& buf)
+{
+    size_t he = buf.find("\r\n\r\n");
+    if (he == std::string::npos) return false;
+    std::string lower = buf.substr(0, he + 2); for (auto& c : lower) c = static_cast<char>(tolower(static_cast<unsigned char>(c)));
+    size_t cl = lower.find("\r\ncontent-length:");
+    size_t n = cl == std::string::npos ? 0 : strtoul(buf.c_str() + cl + 17, nullptr, 10);
+    return buf.size() >= he + 4 + n;
+}
+
+// a raw listener that accepts one connection, records the request bytes, answers 200 with an empty body
+struct Capture {
+    int lfd = -1; uint16_t port = 0; std::thread th; std::string got;
+    bool start()
+    {
+        lfd = ::socket(AF_INET, SOCK_STREAM, 0); if (lfd < 0) return false;
+        int one = 1; ::setsockopt(lfd, SOL_SOCKET, SO_REUSEADDR, &one, sizeof one);
+        sockaddr_in a {}; a.sin_family = AF_INET; a.sin_port = 0; a.sin_addr.s_addr = htonl(INADDR_LOOPBACK);
+        if (::bind(lfd, reinterpret_cast<sockaddr*>(&a), sizeof a) != 0 || ::listen(lfd, 4) != 0) return false;
+        socklen_t len = sizeof a; ::getsockname(lfd, reinterpret_cast<sockaddr*>(&a), &len); port = ntohs(a.sin_port);
+        th = std::thread([this] {
+            pollfd p { lfd, POLLIN, 0 };
+            if (::poll(&p, 1, 2000) <= 0) return;
+            int fd = ::accept(lfd, nullptr, nullptr); if (fd < 0) return;
+            char tmp[65536];
+            for (;;) {
+                if (requestComplete(got)) break;
+                pollfd q { fd, POLLIN, 0 };
+                if (::poll(&q, 1, 300) <= 0) break;
+                ssize_t n = ::recv(fd, tmp, sizeof tmp, 0); if (n <= 0) break;
+                got.append(tmp, static_cast<size_t>(n));
+            }
+            sendAll(fd, "HTTP/1.1 200 OK\r\nContent-Length: 0\r\n\r\n");
+            ::shutdown(fd, SHUT_WR);
+            pollfd q { fd, POLLIN, 0 }; ::poll(&q, 1, 100);
+            ::close(fd);
+        });
+        return true;
+    }
+    void finish() { if (th.joinable()) th.join(); if (lfd >= 0) ::close(lfd); lfd = -1; }
+};
+
+struct ReqSpec {
+    std::string method, path, body;
+    std::vector<std::pair<std::string, std::string>> query, headers, cookies;
+};
+
+Http::Method methodOf(const std::string& name, bool& ok)
+{
+    ok = true;
+#define METHOD(val, str) if (name == #val) return Http::Method::val;
+    HTTP_METHODS
+#undef METHOD
+    ok = false; return Http::Method::Get;
+}
+
+// sends the request described by `rs` through the real client to 127.0.0.1:port; returns "ok <dumpResp>" / "rej:<what>" / "timeout"
+std::string clientSend(uint16_t port, const ReqSpec& rs, int waitMs = 1500)
+{
+    Http::Experimental::Client client;
+    client.init(Http::Experimental::Client::options().threads(1).maxConnectionsPerHost(2));
+    std::string result = "timeout";
+    try {
+        bool ok; Http::Method m = methodOf(rs.method, ok); if (!ok) { client.shutdown(); return "bad-method"; }
+        auto rb = client.get("http://127.0.0.1:" + std::to_string(port) + rs.path);
+        rb.method(m);
+        if (!rs.query.empty()) { Http::Uri::Query q; for (auto& kv : rs.query) q.add(kv.first, kv.second); rb.params(q); }
+        for (auto& h : rs.headers) {
+            auto hd = Http::Header::Registry::instance().makeHeader(h.first);
+            hd->parse(h.second);
+            rb.header(std::shared_ptr<Http::Header::Header>(std::move(hd)));
+        }
+        for (auto& c : rs.cookies) rb.cookie(Http::Cookie(c.first, c.second));
+        if (!rs.body.empty()) rb.body(rs.body);
+        auto resp = rb.send();
+        auto st = std::make_shared<std::string>();
+        std::mutex m2; std::condition_variable cv; bool done = false;
+        resp.then([&](Http::Response r) { std::lock_guard<std::mutex> g(m2); *st = "ok " + canonDump(vh::dumpResp(r)); done = true; cv.notify_all(); },
+                  [&](std::exception_ptr e) {
+                      std::string what = "?";
+                      try { std::rethrow_exception(e); } catch (const std::exception& x) { what = x.what(); } catch (...) { }
+                      std::lock_guard<std::mutex> g(m2); *st = "rej:" + hex(what); done = true; cv.notify_all(); });
+        std::unique_lock<std::mutex> lk(m2);
+        cv.wait_for(lk, std::chrono::milliseconds(waitMs), [&] { return done; });
+        if (done) result = *st;
+    } catch (const std::exception& e) { result = std::string("exc:") + hex(e.what()); }
+    client.shutdown();
+    return result;
+}
+
+std::vector<std::pair<std::string, std::string>> parsePairs(const std::string& s, char sep, bool hexKey)
+{
+    std::vector<std::pair<std::string, std::string>> v;
+    for (auto& it : split(s, ',')) { size_t p = it.find(sep); if (p == std::string::npos) continue; v.emplace_back(hexKey ? unhex(it.substr(0, p)) : it.substr(0, p), unhex(it.substr(p + 1))); }
+    return v;
+}
+
+// rtreq <Method> <pathhex> <query khex:vhex,..|-> <headers Name=hex,..|-> <cookies nhex:vhex,..|-> <bodyhex>
+std::string opRtReq(const std::vector<std::string>& w)
+{
+    if (w.size() != 7) return "bad-op";
+    ReqSpec rs; rs.method = w[1]; rs.path = unhex(w[2]); rs.query = parsePairs(w[3], ':', true); rs.headers = parsePairs(w[4], '=', false);
+    rs.cookies = parsePairs(w[5], ':', true); rs.body = unhex(w[6]);
+    // 1. what goes over the wire
+    Capture cap; if (!cap.start()) return "capture-failed";
+    std::string r1 = clientSend(cap.port, rs);
+    cap.finish();
+    std::string wire = normPortHex(canonRequest(cap.got), cap.port);
+    // 2. what the server handler sees
+    Cfg c; c.maxReq = 1 << 20; uint16_t port = ensureEndpoint(c);
+    RespScript sc; sc.mode = "send"; sc.code = 200;
+    int before; { std::lock_guard<std::mutex> g(G.m); G.script = sc; before = G.handled; G.seenRequest.clear(); }
+    std::string r2 = clientSend(port, rs);
+    std::string seen;
+    { std::unique_lock<std::mutex> lk(G.m); G.cv.wait_for(lk, std::chrono::milliseconds(300), [&] { return G.handled > before; }); seen = G.handled > before ? G.seenRequest : "not-handled"; }
+    return "wire[" + wire + "] seen[" + canonDump(normPortHex(seen, port)) + "] client=" + (r2.rfind("ok ", 0) == 0 ? "ok" : r2);
+}
+
+// rtresp: same arguments as resp; the response is read by the real client
+std::string opRtResp(const std::vector<std::string>& w)
+{
+    if (w.size() != 10) return "bad-op";
+    Cfg c; c.maxResp = strtoul(w[1].c_str(), nullptr, 10);
+    RespScript sc; sc.mode = w[2]; sc.code = atoi(w[3].c_str());
+    for (auto& h : split(w[4], ',')) { size_t eq = h.find('='); if (eq == std::string::npos) return "bad-op"; sc.headers.emplace_back(h.substr(0, eq), unhex(h.substr(eq + 1))); }
+    for (auto& k : split(w[5], ',')) sc.cookies.push_back(unhex(k));
+    for (auto& k : split(w[6], ',')) sc.chunks.push_back(unhex(k));
+    sc.flushes = w[7] == "-" ? "" : w[7]; sc.lits = w[8] == "-" ? "" : w[8];
+    uint16_t port = ensureEndpoint(c);
+    { std::lock_guard<std::mutex> g(G.m); G.script = sc; }
+    ReqSpec rs; rs.method = "Get"; rs.path = "/x";
+    return "clientsees[" + clientSend(port, rs) + "]";
+}
+
 } // namespace
 
 int main()
@@ -276,6 +480,8 @@ int main()
     signal(SIGPIPE, SIG_IGN);
     std::map<std::string, Op> ops;
     ops["resp"] = opResp;
+    ops["rtreq"] = opRtReq;
+    ops["rtresp"] = opRtResp;
     int rc = runLoop(ops, 30);
     stopEndpoint();
     return rc;
